@@ -6,7 +6,11 @@
 set -u
 N=${1:-6}
 export GOFLAGS=-mod=mod GOPROXY=off GOSUMDB=off GOTOOLCHAIN=local
-ls -d /verif/seeded/*/ | sed 's#/$##' > /tmp/sens_all.txt
+ls -d /verif/seeded/*/ | sed 's#/$##' | while read d; do
+  # SENS_ONLY_NEW=1: only the entries that have no result yet
+  if [ "${SENS_ONLY_NEW:-}" = "1" ] && [ -f $d/sens.json ]; then continue; fi
+  echo $d
+done > /tmp/sens_all.txt
 run_slot() {
   s=$1; WT=/tmp/wt/sens$s; V=/tmp/sensverif$s
   git -C /repo worktree add --detach $WT HEAD >/dev/null 2>&1
